@@ -167,18 +167,40 @@ impl Property for C20 {
         if nlines == 0 && rng.chance(1, 3) {
             input.extend_from_slice(b"\n\n"); // only empty lines
         }
-        sc.input = B(input);
+        sc.input = B(input.clone());
         let planned = nlines + 1;
         sc.outcomes = if rng.chance(1, 2) {
             gen_outcomes(rng, planned, true)
         } else {
             vec![]
         };
-        let cfg = resolve(&sc.opts);
+        let mut cfg = resolve(&sc.opts);
+        if let (Mode::Replace(r), true) = (&cfg.mode, rng.chance(1, 6)) {
+            // -s that every line just fits: both the line next to the unsubstituted command
+            // and the command line after substitution stay within it, by 0..5 bytes
+            let spec = tokenize(&cfg, &input);
+            let template: usize = sc.cmd.iter().map(|a| a.len() + 1).sum();
+            let mut need = template;
+            for t in &spec.toks {
+                let substituted: usize = sc.cmd[..1].iter().map(|a| a.len() + 1).sum::<usize>()
+                    + sc.cmd[1..].iter().map(|a| a.len() + a.matches(r.as_str()).count() * t.bytes.len() - a.matches(r.as_str()).count() * r.len() + 1).sum::<usize>();
+                need = need.max(template + t.bytes.len() + 1).max(substituted);
+            }
+            let at = rng.usize_below(sc.opts.len() + 1);
+            sc.opts.insert(at, Opt::S(need + *rng.pick(&[0usize, 0, 1, 2, 5])));
+            cfg = resolve(&sc.opts);
+        }
         sc.note = match cfg.mode {
             Mode::Replace(_) => "replace-mode".into(),
             Mode::Batch => "batch-mode-wins".into(),
         };
+        if r == "{}" && !sc.opts.iter().any(|o| matches!(o, Opt::S(_))) && rng.chance(1, 25) {
+            // real children (the log and script paths contain no "{}")
+            sc.real = Some(crate::xargs::RealKind::Simchild);
+            sc.cmd[0] = "@REAL".into();
+            sc.outcomes.retain(|o| matches!(o, crate::world::Outcome::Exit(_) | crate::world::Outcome::Signal(..)));
+            sc.note.push_str(" real-simchild");
+        }
         let sep = match cfg.delim {
             Some(d) => vec![d],
             None => vec![b' ', b'\n', b'\t'],
@@ -233,6 +255,9 @@ impl Property for C20 {
                 if sc.opts.iter().any(|o| matches!(o, Opt::N(_) | Opt::L(_))) {
                     rep.probe("replace_wins_over_n_or_L");
                 }
+                if sc.opts.iter().any(|o| matches!(o, Opt::S(_))) {
+                    rep.probe("replace_mode_with_max_chars_that_just_fits");
+                }
             }
             Mode::Batch => rep.probe("n_or_L_given_last_wins_over_replace"),
         }
@@ -248,6 +273,12 @@ impl Property for C20 {
             env_count: 0,
         };
         judge.judge(&obs, rep);
+        if sc.real.is_some() {
+            rep.probe("real_child_processes");
+            if rep.violation.is_none() {
+                judge.judge_child_log(&obs, rep);
+            }
+        }
         if rep.want_sample {
             rep.sample = Some(json!({
                 "scenario": sc,
